@@ -2450,8 +2450,12 @@ def _x9_mail_data(rng):
     if rng.random() < 0.3:                      # a Content-Transfer-Encoding header and a body it would rewrite
         doc["headers"].append([rng.choice(["Content-Transfer-Encoding", "content-transfer-encoding", "CONTENT-TRANSFER-ENCODING"]),
                                ["t", rng.choice(["base64", "quoted-printable", "8bit", "x-uuencode", "BASE64"])]])
-        if rng.random() < 0.7:
+        r = rng.random()
+        if r < 0.55:
             doc["body"] = ["t", rng.choice(["aGVsbG8=\n", "=41=42 c\n", "plain", "aGVsbG8", "=FF\n", "/w==\n"])]
+        elif r < 0.8:                           # an undecodable body next to the header: the `except ValueError` branch reads the
+            doc["body"] = ["x", rng.choice(["ff0a", "61ff62", "c3", "2f773d3dff"])]     # payload of the message *after* the deletion
+            doc["bytes"] = doc["bytes"] or rng.random() < 0.8
     return GM.build_doc(doc)
 
 
